@@ -989,7 +989,9 @@ impl Model {
                                 let cont = if vis == Vis::Live { Some(it) } else { None };
                                 self.ack_token(key, t, cont, &what)?;
                             }
-                            self.mutate_item(key, it, newv.to_string().into_bytes(), acked, Some(*exp), "counter");
+                            // like append/prepend, a counter update leaves the item's own TTL alone: C05 bounds
+                            // an item's life by its last mutation plus *its* TTL, and TTL 0 never expires
+                            self.mutate_item(key, it, newv.to_string().into_bytes(), acked, None, "counter");
                         }
                     }
                 }
